@@ -675,6 +675,21 @@ def fam_C03(rng, tier):
         for k in range(4 if tier == 'quick' else 30):
             variants.append((f'rand{k}', None, lambda d: sorted(rng.sample(range(1, len(d)), min(rng.choice([2, 5, 17]), len(d) - 1)))))
         group(f'c03-g{gi}', mk, variants)
+    # a LARGE packet in three or more reads, the read that completes it carrying the first 1 / 2 / 3 bytes of the next packet
+    # (round 11, C03-k: the over-grown buffer replaced by a fresh one "between packets" — with the next packet's first byte in it)
+    for big in ([6000, 20000] if tier == 'quick' else [4097, 5000, 6000, 9000, 20000, 70000]):
+        def mkbig(sid, big=big):
+            return [m.publish(b'a', b'L' * big, 0, None, 0, 0, [(11, sid)]),
+                    m.publish(b'a', b'next', 1, 7, 0, 0, [(11, sid)]), m.pingresp(),
+                    m.publish(b'a', b'M' * big, 1, 8, 0, 0, [(11, sid)]), m.pingresp()]
+        first = len(mkbig(1)[0])
+        variants = [('whole', None, 'perpacket')]
+        for parts in (3, 4):
+            for over in (1, 2, 3):
+                cuts = [first * k // parts for k in range(1, parts)] + [first + over, first + over + 1]
+                variants.append((f'p{parts}o{over}', None, (lambda c: (lambda d: c))(cuts)))
+                variants.append((f'p{parts}o{over}f', 'rd=fill', (lambda c: (lambda d: c))(cuts)))
+        group(f'c03-bigtail-{big}', mkbig, variants)
     # remaining lengths of 2, 3 and 4 bytes (padded encodings, accepted by the decoder) cut after every one of their bytes,
     # alone and behind another packet in the same read
     for w in [2, 3, 4]:
@@ -2162,6 +2177,22 @@ def fam_C09(rng, tier):
     out += fam_walk(rng, tier, 'c09-mix', 30 if tier == 'quick' else 1000, 60,
                     weights=dict(pub0=0, pub1=2, pub2=4, sub=1, unsub=0, ping=0, ack=8, inbound=8, pubrel=4, stream=2),
                     subid_modes=['reg'], batch=0.1)
+    # a PUBREL whose reason is 0x92 (Packet Identifier Not Found — the only reason >= 0x80 a PUBREL can carry), short and long
+    # form: it releases the identifier like any other; the next PUBLISH with that identifier is a new message
+    # (round 11, C07-k: the identifier was released only for reason Success)
+    for form in ('id', 'reason', 'full'):
+        for r in (0x92, 0x00):
+            s = Sess(f'c09-pubrel-reason-{form}-{r}')
+            s.connect()
+            op, sid = s.subscribed_stream()
+            s.feed(m.publish(b'a', b'one', 2, 7, 0, 0, [(11, sid)]))
+            s.feed(m.publish(b'a', b'one', 2, 7, 1, 0, [(11, sid)]))
+            s.feed(m.ack('pubrel', 7) if form == 'id' else m.ack('pubrel', 7, r) if form == 'reason' else m.ack('pubrel', 7, r, []))
+            s.feed(m.publish(b'a', b'two', 2, 7, 0, 0, [(11, sid)]))
+            s.feed(m.ack('pubrel', 7, 0x92))
+            s.feed(m.ack('pubrel', 9, 0x92))
+            s.feed(m.publish(b'a', b'three', 2, 7, 0, 0, [(11, sid)]))
+            out.append(s.script())
     return out
 
 
@@ -2537,6 +2568,30 @@ def fam_C12(rng, tier):
                     max_pkt=64, recv_max=lambda r: r.choice([None, 2, 4]),
                     weights=dict(pubbig=5, pub0=2, pub1=4, pub2=4, sub=1, unsub=1, ping=1, ack=8, inbound=1, pubrel=0, stream=0),
                     batch=0.15)
+    # requests issued (and queued) BEFORE connect() has seen the CONNACK that announces the limit: the limit that counts is the
+    # one in force when the context takes the request off the queue (round 11, C12-k: the check moved to the handle, which
+    # reads a shared limit that is still unset at that moment)
+    for kind in ('pub0', 'pub1', 'sub', 'unsub'):
+        for M in (20, 30):
+            for fits in (False, True):
+                s = Sess(f'c12-early-{kind}-{M}-{int(fits)}')
+                s.add('SETUP')
+                pay = b'y' * (3 if fits else 60)
+                if kind == 'pub0':
+                    s.publish(0, fields=[('p', pay)])
+                elif kind == 'pub1':
+                    s.publish(1, fields=[('p', pay)])
+                elif kind == 'sub':
+                    s.subscribe(((b'f' * len(pay), '2000'),))
+                else:
+                    s.unsubscribe([b'f' * len(pay)])
+                s.add('CONNECT cid=63')
+                s.feed(m.connack(0, 0, [(39, M)]))
+                s.add('RUN')
+                s.publish(1, fields=[('p', b'after')])
+                s.ping()
+                s.feed(m.pingresp())
+                out.append(s.script())
     return fam_C12_quota(out)
 
 
@@ -2978,6 +3033,20 @@ def fam_C14(rng, tier):
     out += [(n2.replace('c07', 'c14'), l + ['DROPCTX', 'OP 9000 h0 PING'])
             for n2, l in fam_walk(rng, tier, 'c07-w14', 20 if tier == 'quick' else 500, 40,
                                   weights=dict(inbound=6, stream=3), allow_drop=True)]
+    # disconnect() a second time, after the first one succeeded and the Context is gone — on the same handle and on a clone
+    # (round 11, C14-k: an "already disconnected" flag shared by the clones made the second call report Ok)
+    for when in ('after-drop', 'before-and-after'):
+        s = Sess(f'c14-disc-twice-{when}')
+        s.connect()
+        s.add('CLONE h0 h1')
+        s.disconnect()
+        if when == 'before-and-after':
+            s.disconnect(h=1)               # run() has returned, the Context still exists: stays pending until the drop
+        s.add('DROPCTX')
+        s.disconnect()
+        s.disconnect(h=1)
+        s.ping(1)
+        out.append(s.script())
     return out
 
 
@@ -3660,7 +3729,7 @@ FAMILIES = {
     'C01': lambda rng, tier: fam_C01(rng, tier) + submission_order_scripts(rng, tier, 'c01') + reconnect_matrix('c01', tier),
     'C02': lambda rng, tier: fam_C02(rng, tier) + user_property_order_scripts('c02') + reconnect_matrix('c02', tier), 'C03': fam_C03,
     'C04': with_common(lambda rng, tier: fam_C04(rng, tier) + burst_scripts('c04', tier) + prop_by_type_scripts('c04') + padded_subid_scripts('c04') + reason_sweep_scripts('c04', tier) + bad_utf8_scripts('c04') + bad_property_value_scripts('c04'), 'c04'), 'C05': with_common(fam_C05, 'c05'), 'C06': with_common(fam_C06, 'c06'),
-    'C07': with_common(lambda rng, tier: fam_C07(rng, tier) + padded_subid_scripts('c07'), 'c07'), 'C08': with_common(fam_C08, 'c08'), 'C09': with_common(lambda rng, tier: fam_C09(rng, tier) + congruent_id_scripts('c09', tier), 'c09'),
+    'C07': with_common(lambda rng, tier: fam_C07(rng, tier) + padded_subid_scripts('c07') + [(n.replace('c09-', 'c07-'), l) for n, l in fam_C09(rng, 'quick') if n.startswith('c09-pubrel-reason')], 'c07'), 'C08': with_common(fam_C08, 'c08'), 'C09': with_common(lambda rng, tier: fam_C09(rng, tier) + congruent_id_scripts('c09', tier), 'c09'),
     'C10': with_common(fam_C10, 'c10'), 'C11': with_common(fam_C11, 'c11', n_quick=15, n_thorough=300),
     'C12': with_common(fam_C12, 'c12'), 'C13': with_common(fam_C13, 'c13'),
     'C14': with_common(fam_C14, 'c14', tail=['DROPCTX', 'OP 9001 h0 PING', 'OP 9003 h0 PUBLISH q=1 t=61 p=' + '78' * 100, 'OP 9004 h0 SUBSCRIBE f=' + '61' * 100 + ':2000',
